@@ -3,7 +3,7 @@ PRE = '''#![allow(dead_code, unused)]
 use scale_info::TypeInfo; use core::marker::PhantomData;
 pub trait Cfg { type A; }
 pub struct R; impl Cfg for R { type A = u8; }            // no TypeInfo; its associated type has
-impl Cfg for u8 { type A = bool; }
+impl Cfg for u8 { type A = u16; }
 pub struct NoInfo; pub struct NoInfoG<T>(T);
 #[derive(Clone, Debug)] pub struct NC; #[derive(Clone, Debug)] pub struct RC; impl Cfg for RC { type A = u32; }
 fn ok<T: TypeInfo + 'static>() { let t = T::type_info(); assert!(!t.path.segments.is_empty()); }
@@ -15,10 +15,10 @@ def tmpl(t, p, selfty):
             "vecassoc": "Vec<%s::A>" % p, "selfbox": "Box<%s>" % selfty, "selfvec": "Vec<%s>" % selfty, "selfkw": "Option<Box<Self>>",
             "selfmix": "Vec<(%s, %s)>" % (selfty, p), "selfassoc": "Vec<(%s, %s::A)>" % (selfty, p),
             "skipT": "#[codec(skip)] %s" % p, "skipNoInfoG": "#[codec(skip)] NoInfoG<%s>" % p, "skipNoInfo": "#[codec(skip)] NoInfo",
-            "compactc": "#[codec(compact)] u32", "concrete": "u64"}[t]
+            "compactc": "#[codec(compact)] u32", "concrete": "u64", "compactp": "#[codec(compact)] %s" % p, "compactassoc": "#[codec(compact)] %s::A" % p}[t]
 
-NEEDS_CFG = {"assoc", "qassoc", "vecassoc", "selfassoc"}
-MENTIONS = {"direct", "vec", "opt", "arr", "tup", "box", "result", "phantom", "assoc", "qassoc", "vecassoc", "selfmix", "selfassoc", "skipT", "skipNoInfoG"}
+NEEDS_CFG = {"assoc", "qassoc", "vecassoc", "selfassoc", "compactassoc"}
+MENTIONS = {"compactp", "compactassoc", "direct", "vec", "opt", "arr", "tup", "box", "result", "phantom", "assoc", "qassoc", "vecassoc", "selfmix", "selfassoc", "skipT", "skipNoInfoG"}
 
 def program(g, i):
     name = "G%d" % i
@@ -52,6 +52,8 @@ def program(g, i):
         bs = ["%s: TypeInfo + 'static" % p for p in params if p not in skip]
         for t, p in fields:
             if t in NEEDS_CFG: bs.append("%s::A: TypeInfo + 'static" % p)
+            if t == "compactassoc": bs.append("%s::A: ::scale_info::scale::HasCompact" % p)
+            if t == "compactp": bs.append("%s: ::scale_info::scale::HasCompact" % p)
         attrs.append("bounds(" + ", ".join(dict.fromkeys(bs)) + ")")
     head = "#[derive(TypeInfo)]\n" + "".join("#[scale_info(%s)]\n" % a for a in attrs)
     gtxt = "<" + ", ".join(gdecl) + ">"
